@@ -84,13 +84,26 @@ end Newton
 
 /-- `fallback::recip_sqrt` in exact arithmetic: the seed decoded exactly, one exact Newton step.
 `none` when `x` is not finite (outside the domain). -/
-def recipSqrtRat (x : UInt32) : Outcome (Option Rat) :=
+def recipSqrtNormal (x : UInt32) : Outcome (Option Rat) :=
   match rsqrtSeed x with
   | .panic s => .panic s
   | .ok yb =>
     match toRat? x, toRat? yb with
     | some xv, some y => .ok (some (newtonStep xv y))
     | _, _ => .ok none
+
+/-- float.rs `fallback::recip_sqrt` with the subnormal branch (fix: `if 0.0 < x && x < f32::MIN_POSITIVE
+{ return recip_sqrt(x * 16_777_216.0) * 4096.0 }`): a positive subnormal is scaled by 2^24 (exact: its bit
+pattern is `m`, the scaled value `m·2^-125` is a normal number) and the result by 2^12 (exact). -/
+def recipSqrtRat (x : UInt32) : Outcome (Option Rat) :=
+  if !signBit x && expField x == 0 && manField x != 0 then
+    match toRat? x with
+    | some xv =>
+      match recipSqrtNormal (F32.ofRat (xv * 16777216)) with
+      | .ok (some r) => .ok (some (r * 4096))
+      | other => other
+    | none => .ok none
+  else recipSqrtNormal x
 
 /-! ### Pixel-centre rounding, raster.rs:233-245 (after fix b772987) -/
 
